@@ -32,3 +32,18 @@ pub fn vx_set_new() -> VxSet { unimplemented!() }
 pub fn vx_set_insert(s: &mut VxSet, v: String) -> bool { unimplemented!() }
 #[verifier::external_body]
 pub fn vx_clone_string(s: &String) -> (r: String) ensures r@ == s@ { unimplemented!() }
+#[verifier::external_body]
+#[verifier::reject_recursive_types(T)]
+pub struct Spanned<T> { _p: core::marker::PhantomData<T> }
+pub uninterp spec fn bop_of(e: Spanned<BinaryOperation>) -> BinaryOperator;
+impl Spanned<BinaryOperation> {
+    #[verifier::external_body]
+    pub fn into_parts(self) -> (r: (BinaryOperation, Span)) ensures r.0.op == bop_of(self) { unimplemented!() }
+}
+/// `Vec::last_mut` (std): a mutable reference to the last element; what is written through it is what the vector holds afterwards
+#[verifier::external_body]
+pub fn vx_last_mut(v: &mut Vec<ProcessingBody>) -> (r: Option<&mut ProcessingBody>)
+    ensures
+        old(v)@.len() > 0 ==> r is Some && *r->Some_0 == old(v)@.last() && final(v)@ == old(v)@.drop_last().push(*final(r->Some_0)),
+        old(v)@.len() == 0 ==> r is None && final(v)@ == old(v)@,
+{ unimplemented!() }
